@@ -2722,7 +2722,7 @@ func pfCanon(j *pfJ) string {
 
 // ---------------------------------------------------------------------------------------------
 
-var pfKinds = []string{"accepts", "codec", "decode", "unprim", "peq", "annot", "gen", "vph", "http", "e2e", "params"}
+var pfKinds = []string{"accepts", "codec", "decode", "unprim", "peq", "annot", "gen", "vph", "http", "e2e", "params", "seq"}
 
 func pfRngFor(seed int64, kind string, idx int) *rand.Rand {
 	k := 0
@@ -2752,6 +2752,10 @@ func pfRunCase(t *testing.T, out *verifOut, kind string, seed int64, idx int, ep
 	case "http":
 		c := g.httpCase()
 		op, obs, tags = c.run()
+	case "seq":
+		// one session over time (zz_verif_preflight_seq_test.go); records carry no @-token: their replay is literal
+		pfqRun(t, out, cs, "", g.pfqGenerate(), extraTag)
+		return
 	case "e2e":
 		schema := g.validSchema()
 		e := pfNewE2E(t, schema)
@@ -2798,8 +2802,13 @@ func pfReplay(t *testing.T, out *verifOut, path, tag string) {
 		t.Fatal(err)
 	}
 	done := map[string]bool{}
+	var seqLines []string
 	for _, ln := range strings.Split(string(b), "\n") {
 		f := strings.Fields(ln)
+		if len(f) > 0 && f[0] == "seq" {
+			seqLines = append(seqLines, ln) // a literal session (kind `seq`): interpreted line by line, below
+			continue
+		}
 		if len(f) == 0 || !strings.HasPrefix(f[0], "@") || done[f[0]] {
 			continue
 		}
@@ -2815,6 +2824,10 @@ func pfReplay(t *testing.T, out *verifOut, path, tag string) {
 			epoch, _ = strconv.Atoi(p[3])
 		}
 		pfRunCase(t, out, p[0], seed, idx, epoch, tag)
+	}
+	if len(seqLines) > 0 {
+		name := path[strings.LastIndex(path, "/")+1:]
+		pfqRun(t, out, "seq:"+strings.TrimSuffix(name, ".ops"), "", seqLines, tag)
 	}
 }
 
@@ -2839,15 +2852,19 @@ func TestVerifPreflight(t *testing.T) {
 	counts := map[string]int{
 		"accepts": scale(2500, 40000), "codec": scale(2500, 40000), "decode": scale(1500, 20000), "unprim": scale(2500, 30000),
 		"peq": scale(4000, 60000), "annot": scale(2500, 30000), "gen": scale(2500, 40000), "vph": scale(4000, 80000),
-		"http": scale(8000, 120000), "e2e": scale(250, 4000), "params": scale(3000, 40000),
+		"http": scale(8000, 120000), "e2e": scale(250, 4000), "params": scale(3000, 40000), "seq": scale(600, 9000),
 	}
 	if over {
 		// VERIF_CASES scales the whole-request stream; helpers follow proportionally
 		n := verifN(0, 0)
-		counts = map[string]int{"accepts": n / 4, "codec": n / 4, "decode": n / 8, "unprim": n / 4, "peq": n / 2, "annot": n / 4, "gen": n / 4, "vph": n / 2, "http": n, "e2e": n / 40, "params": n / 4}
+		counts = map[string]int{"accepts": n / 4, "codec": n / 4, "decode": n / 8, "unprim": n / 4, "peq": n / 2, "annot": n / 4, "gen": n / 4, "vph": n / 2, "http": n, "e2e": n / 40, "params": n / 4, "seq": n / 8}
 	}
+	only := os.Getenv("VERIF_PF_KINDS") // debugging aid: run these record kinds only (comma-separated)
 	for _, kind := range pfKinds {
 		n := counts[kind]
+		if only != "" && !strings.Contains(","+only+",", ","+kind+",") {
+			continue
+		}
 		if pfRace {
 			n /= 6
 		}
